@@ -110,7 +110,7 @@ def run_docs(c, binp, docs, universe_ids, label):
     types = {k: universe_ids for k in ("receivers", "processors", "exporters", "connectors", "extensions")}
     texts = [d.get("_doc") or render(c, d) for d in docs]
     vlib.write_ndjson(inp, [dict(doc=t, types=types) for t in texts])
-    c.run([binp, inp, out], timeout=900)
+    c.run([binp, inp, out], timeout=1800)
     res = vlib.read_ndjson(out)
     if len(res) != len(docs):
         raise vlib.Inconclusive("driver loaded %d of %d documents" % (len(res), len(docs)))
@@ -149,8 +149,10 @@ def run(c):
     universes = [("Pipes2", ["r1"], ["p1", "p2"], ["e1"], ["ca1"], 4, ["x1", "x2"], 2)] if qk else \
                 [("Pipes2", ["r1"], ["p1", "p2"], ["e1"], ["ca1"], 5, ["x1", "x2"], 2),
                  ("Pipes2", ["r1"], ["p1", "p2"], ["e1"], ["ca1"], 6, ["x1"], 2),
-                 ("Pipes3", ["r1", "r2"], ["p1"], ["e1"], ["ca1", "cs1"], 5, ["x1", "x2"], 2),
-                 ("Pipes2", ["r1"], ["p1", "p2"], ["e1"], ["ca1"], 4, ["x1"], 3)]
+                 ("Pipes3", ["r1"], ["p1"], ["e1"], ["ca1", "cs1"], 4, ["x1"], 2),
+                 ("Pipes2", ["r1"], ["p1", "p2"], ["e1"], ["ca1"], 4, ["x1"], 3),
+                 ("Pipes3", ["r1", "r2"], ["p1"], ["e1"], ["ca1"], 5, ["x1", "x2"], 2),
+                 ("Pipes2", ["r1"], ["p1", "p2"], ["e1"], ["ca1"], 6, ["x1", "x2"], 2)]
     total = nontrivial = 0
     for k, u in enumerate(universes):
         c.tlc_must_pass("ConfigValidate", "ConfigValidate", cfg_text=cfg_text(*u, "WalkSound"), coverage=True, files=PGFILES,
